@@ -184,7 +184,11 @@ class Universe:
     """memoised tree of nodes addressed by path (tuple of step labels).  step(parent, label) must be a
     pure function returning (txs, miner, dt) or None when the payload does not apply at that parent."""
 
+    _uids = 0
+
     def __init__(self, root, payload_fn, default_kw=None):
+        Universe._uids += 1
+        self.uid = (Universe._uids, refmodel.HALVING, refmodel.PERIOD)
         self.default_kw = default_kw or {}
         self.root = root
         self.payload_fn = payload_fn
